@@ -251,8 +251,8 @@ async function runJob(job, cg) {
       } catch (e) {
         defs = { __error: errMsg(e) };
       }
-      return { cfg, schema: s, defs: encode(defs), defsjson: defs,
-               inprog: Object.keys(pc.inProgressDefinitions ?? {}) };
+      return { cfg, schema: s, defs: encode({ ...(pc.collectedDefinitions ?? {}) }), defsjson: { ...(pc.collectedDefinitions ?? {}) },
+               exported: defs, inprog: Object.keys(pc.inProgressDefinitions ?? {}) };
     });
   }
   return out;
